@@ -216,6 +216,15 @@ def check_measured(case):
     gt = case["ground_truth"]
     gt_names = sorted(cont["annotators"]) if gt is None else sorted(gt)
     smp = pa.StatisticalContinuumSampler()
+    if case.get("pre_edit"):
+        # history: the same sampler is first initialised on the reference as it was, the reference is then edited
+        # in place (public add), and the sampler is initialised again on the same object
+        from pyannote.core import Segment
+        lib_call("init_sampling[before edit]", smp.init_sampling, c, None if gt is None else list(gt))
+        _ = smp.sample_from_continuum
+        for a, s_, e_, l_ in case["pre_edit"]:
+            c.add(a, Segment(s_, e_), l_)
+        cont = dict(cont, units=cont["units"] + case["pre_edit"])
     lib_call("init_sampling", smp.init_sampling, c, None if gt is None else list(gt))
     cands = estimate_candidates(cont)
     np.random.seed(case["seed"])
@@ -224,7 +233,7 @@ def check_measured(case):
     prec = precision_value()
     labels = cands[0]["categories"]
     lib = draw_library(smp, M, gt_names, {l: i for i, l in enumerate(labels)}, prec, set(labels))
-    classes = [f"k={len(gt_names)}", "gt-subset" if gt is not None else "gt-all"]
+    classes = [f"k={len(gt_names)}", "gt-subset" if gt is not None else "gt-all"] + (["re-initialised-after-edit"] if case.get("pre_edit") else [])
     decide(lib, cands, gt_names, M, prec, case["sim_seed"], classes, "measured")
     w = cands[0]["weights"]
     unequal = len({round(x, 6) for x in w}) > 1
@@ -267,7 +276,16 @@ def measured_cases(draw):
     gt = None
     if n > 2 and draw(st.booleans()):
         gt = sorted(draw(st.permutations(names))[:draw(st.integers(2, n))])
-    return {"continuum": {"annotators": names, "units": units}, "ground_truth": gt,
+    pre = []
+    if draw(st.integers(0, 2)) == 0:
+        # a substantial edit: many long units with a new dominant category on one annotator
+        a = draw(st.sampled_from(names))
+        t = 200.0
+        for _ in range(draw(st.integers(6, 12))):
+            d = draw(gen.dyadic(20, 40))
+            pre.append([a, t, t + d, "Z"])
+            t += d + draw(gen.dyadic(30, 60))
+    return {"continuum": {"annotators": names, "units": units}, "ground_truth": gt, "pre_edit": pre,
             "seed": draw(st.integers(0, 2 ** 31 - 1)), "sim_seed": draw(st.integers(0, 2 ** 31 - 1))}
 
 
